@@ -45,6 +45,19 @@ Print Assumptions C14_history_independent.
    or a cache, starts a goroutine or uses a channel (write-set analysis of
    the source, tools/gosync effects.go, regenerated on every run): separate
    decodes have no package-level state through which to interfere. *)
+(* "A decoded packet never aliases the buffer it was decoded from", decided on
+   the source for every path: the same analysis tracks which memory may come
+   to hold a reference into which (assignments, copies of reference elements,
+   calls through the callee's own summary, locals that may refer to one
+   object); for each of the 25 UnmarshalBinary methods (packet and wire
+   types) the receiver is never left holding a reference into the data
+   argument - every byte field is made by make+copy or a string conversion -
+   and the packet ReadPacket / ReadRemaining return does not reach into the
+   reader. *)
+Theorem C14_decoders_copy : g_decoder_retains = [] /\ List.length g_decoders = 27%nat.
+Proof. exact (conj sync_decoders_copy sync_decoders_covered). Qed.
+Print Assumptions C14_decoders_copy.
+
 Theorem C14_no_global_state : g_global_effects = [].
 Proof. exact sync_no_global_state. Qed.
 Print Assumptions C14_no_global_state.
